@@ -165,6 +165,40 @@ def mutants_measures(prog: Program) -> list[tuple[str, str, str, str]]:
     return out
 
 
+def mutants_quadric_ctors(prog: Program) -> list[tuple[str, str, str, str]]:
+    """O10: in the constructors of the parametrised quadrics every + / - and * / / exchanged, every unary minus dropped, every integer
+    constant (indices, exponents) bumped"""
+    out = []
+    for m in prog.modules.values():
+        if not m.rel.endswith("curve.py"):
+            continue
+        src = m.source
+        for cls in ast.walk(m.tree):
+            if not (isinstance(cls, ast.ClassDef) and cls.name in ("Sphere", "Ellipse", "Circle", "Cone", "Cylinder")):
+                continue
+            for fn in cls.body:
+                if not (isinstance(fn, ast.FunctionDef) and fn.name == "__init__"):
+                    continue
+                for node in ast.walk(fn):
+                    where = f"{m.rel}:{getattr(node, 'lineno', fn.lineno)}: {cls.name}.__init__"
+                    if isinstance(node, ast.BinOp) and isinstance(node.op, (ast.Add, ast.Sub, ast.Mult, ast.Div)):
+                        l, r = ast.get_source_segment(src, node.left), ast.get_source_segment(src, node.right)
+                        if l and r:
+                            op = {ast.Add: "-", ast.Sub: "+", ast.Mult: "/", ast.Div: "*"}[type(node.op)]
+                            out.append(("O10 arithmetic operator exchanged", m.rel, f"{where}: {ast.unparse(node)[:50]} -> {op}", _replace(src, node, f"{l} {op} {r}")))
+                    if isinstance(node, ast.UnaryOp) and isinstance(node.op, ast.USub) and not isinstance(node.operand, ast.Constant):
+                        inner = ast.get_source_segment(src, node.operand)
+                        if inner:
+                            out.append(("O10 unary minus dropped", m.rel, f"{where}: {ast.unparse(node)[:50]}", _replace(src, node, inner)))
+                    if isinstance(node, ast.Constant) and isinstance(node.value, int) and not isinstance(node.value, bool):
+                        out.append(("O10 integer constant + 1", m.rel, f"{where}: {node.value} -> {node.value + 1}", _replace(src, node, str(node.value + 1))))
+    return out
+
+
+def mutants_c13(prog: Program) -> list[tuple[str, str, str, str]]:
+    return mutants_measures(prog) + mutants_quadric_ctors(prog)
+
+
 SIBLINGS = {"a": "b", "b": "a", "m1": "m2", "m2": "m1", "d1": "d2", "d2": "d1", "t1": "t2", "t2": "t1", "a1": "a2", "b1": "b2", "c1": "c2", "u": "v", "v": "u"}
 
 
@@ -201,7 +235,7 @@ def mutants_constructors(prog: Program) -> list[tuple[str, str, str, str]]:
 
 
 SWEEPS = {"C08": mutants_constructors, "C12": mutants_purity, "C03": mutants_normalized, "C17": mutants_normalized, "C16": mutants_comparisons, "C20": mutants_closed_forms,
-          "C13": mutants_measures}
+          "C13": mutants_c13}
 
 
 def run(run: Run, prog: Program, seed: int) -> None:
